@@ -59,7 +59,7 @@ def recipe(c: Check):
     st = c.run_driver("router", q(c.tier, 480, 6000), shards=q(c.tier, 8, 16))
     if st:
         need(c, "router", c.cov.get("coq_counters", {}).get("router", {}),
-             ["NCONFLICT", "NREFUSED", "NEXACT", "NWILDCARD", "NCATCHALL", "NUSERSPECIFIC", "NUSERFALLBACK", "NLONGLOC", "NDEEPWILD"])
+             ["NCONFLICT", "NREFUSED", "NEXACT", "NWILDCARD", "NCATCHALL", "NUSERSPECIFIC", "NUSERFALLBACK", "NLONGLOC", "NDEEPWILD", "NDROPPED"])
     # goroutines released at the same instant register the same triple on the real Routers: some
     # sequential order of the calls must explain the answers (C06_concurrent_registrations_linearizable)
     st = c.run_driver("add_race", q(c.tier, 400, 6000), shards=q(c.tier, 2, 8), timeout=900)
@@ -69,7 +69,7 @@ def recipe(c: Check):
     st = run_timing_tolerant(c, "router_http", q(c.tier, 150, 1500), shards=q(c.tier, 8, 16), timeout=1500)
     if st:
         need(c, "router_http", c.cov.get("coq_counters", {}).get("router_http", {}),
-             ["NREUSED", "NNOTFOUND", "NH2C", "NSTALE", "NCONNECT", "NDEEPHOST"])
+             ["NREUSED", "NNOTFOUND", "NH2C", "NSTALE", "NCONNECT", "NDEEPHOST", "NKEYHOST"])
     st = c.run_driver("shared_port", q(c.tier, 20, 300), shards=q(c.tier, 4, 8), timeout=900)
     if st:
         need(c, "shared_port", c.cov.get("coq_counters", {}).get("shared_port", {}), ["NSYSREFUSED", "NSYSEXACT", "NSYSWILDCARD"])
